@@ -18,12 +18,43 @@ import Indi.Spec.Wait
 import Indi.Model.Send
 import Indi.Spec.Sys
 import Indi.Model.Sys
+import Indi.Model.Xml
+import Indi.Spec.RtrR
 
 open Indi Indi.Wire
 
 def encResMsg : Except Err Msg → String
   | .ok m => "ok " ++ encMsg m
   | .error e => "err " ++ encErr e
+
+
+/-! xml component: the character level -/
+
+def encXmlRes : Xml.Res → String
+  | .ok e => "ok " ++ encElem e
+  | .err => "err"
+  | .uns => "uns"
+
+/-- the parser parameter of the buffer model, instantiated with the character-level model:
+`none` stands for "the model does not decide this candidate" -/
+def xmlBufParse (x : Str) : Buf.ParseRes (Option Msg) :=
+  match Xml.parseDoc x with
+  | .ok e =>
+    match fromXml Generated.registry e with
+    | .ok m => .msg (some m)
+    | .error .unsupported => .msg none
+    | .error _ => .invalid
+  | .err => .notXml
+  | .uns => .msg none
+
+def encDeliv' (l : List (Option Msg)) : String :=
+  if l.any Option.isNone then "uns" else encList (fun m => match m with | some m => encMsg m | none => "?") l
+
+def xmlBufSession (T : Option Nat) : Str → List Str → List String
+  | _, [] => []
+  | data, p :: ps =>
+    let r := Buf.feed xmlBufParse (Generated.messageClasses.map (·.tag)) T data p
+    (encDeliv' r.1 ++ " ; " ++ encStr r.2) :: xmlBufSession T r.2 ps
 
 /-! router component -/
 
@@ -68,6 +99,32 @@ def pOp : P Rtr.Op := do
 def encTarget : Rtr.Target → String
   | .dev i => "d" ++ toString i
   | .cli i => "c" ++ toString i
+
+
+def pTarget : P Rtr.Target := do
+  let t ← tok
+  match t.toList with
+  | 'c' :: r => match (String.ofList r).toNat? with
+    | some n => pure (.cli n)
+    | none => fail
+  | 'd' :: r => match (String.ofList r).toNat? with
+    | some n => pure (.dev n)
+    | none => fail
+  | _ => fail
+
+/-- `id who tag device|~ policy` -/
+def pReaction : P Rtr.Reaction := do
+  let i ← pNat
+  let who ← pTarget
+  let tag ← pStr
+  let dv ← pOpt
+  let pol ← pPolicy
+  match Rtr.rmsgOf Generated.registry tag dv pol with
+  | some m => pure { id := i, who := who, msg := m }
+  | none => fail
+
+def encRTrace (t : List (List (Nat × Rtr.Target))) : String :=
+  String.intercalate " | " (t.map fun ds => String.intercalate " " (ds.map fun (i, x) => toString i ++ ":" ++ encTarget x))
 
 def encTrace (t : List (List Rtr.Target)) : String :=
   String.intercalate " | " (t.map fun ds => String.intercalate " " (ds.map encTarget))
@@ -559,6 +616,15 @@ def handle (ts : List String) : String :=
     | some (routed, outs, drained) =>
       encBool (outs.all (fun o => o.isPrefixOf routed) && (!drained || outs.getLast? == some routed || (outs.isEmpty && routed.isEmpty)))
     | none => "bad-op"
+  | "wait" :: "union" :: rest =>
+    -- concurrent waits are independent: the getProperties sent are the merge of what each wait sends on its own
+    match runP (do let cs ← pList pWaitCfg; let b ← pList pBatch; let h ← pNat; pure (cs, b, h)) rest with
+    | some (cs, b, h) => encIds ((cs.flatMap fun c => (Wait.run c b h).sends.reverse).mergeSort (· ≤ ·))
+    | none => "bad-op"
+  | "spec" :: "waitunion" :: rest =>
+    match runP (do let cs ← pList pWaitCfg; let b ← pList pBatch; let h ← pNat; pure (cs, b, h)) rest with
+    | some (cs, b, h) => encIds ((cs.flatMap fun c => Spec.Wait.expectedSends c b h).mergeSort (· ≤ ·))
+    | none => "bad-op"
   | "wait" :: "run" :: rest =>
     match runP (do let c ← pWaitCfg; let b ← pList pBatch; let h ← pNat; pure (c, b, h)) rest with
     | some (c, b, h) =>
@@ -704,6 +770,14 @@ def handle (ts : List String) : String :=
         pure (r, before, op, snaps, after)) rest with
     | some (r, before, op, snaps, after) => encBool (Spec.Switch.holds r before op snaps after)
     | none => "bad-op"
+  | "router" :: "rhist" :: rest =>
+    match runP (do let h ← pList pOp; let rs ← pList pReaction; pure (h, rs)) rest with
+    | some (h, rs) => encRTrace ((Rtr.traceR Rtr.init rs h).map fun ds => ds.map fun d => (d.mid, d.target))
+    | none => "bad-op"
+  | "spec" :: "rrouter" :: rest =>
+    match runP (do let h ← pList pOp; let rs ← pList pReaction; pure (h, rs)) rest with
+    | some (h, rs) => encRTrace (Spec.Rtr.expectedTraceR [] rs h)
+    | none => "bad-op"
   | "router" :: "hist" :: rest =>
     match runP (pList pOp) rest with
     | some h => encTrace (Rtr.trace Rtr.init h)
@@ -729,6 +803,28 @@ def handle (ts : List String) : String :=
   | "spec" :: "router" :: rest =>
     match runP (pList pOp) rest with
     | some h => encTrace (Spec.Rtr.expectedTrace h)
+    | none => "bad-op"
+  | "xml" :: "parse" :: rest =>
+    match runP pStr rest with
+    | some x => encXmlRes (Xml.parseDoc x)
+    | none => "bad-op"
+  | "xml" :: "ser" :: rest =>
+    match runP pElem rest with
+    | some e => encStr (Xml.serElem e)
+    | none => "bad-op"
+  | "xml" :: "fromstring" :: rest =>
+    match runP pStr rest with
+    | some x => encResMsg (Xml.fromString Generated.registry x)
+    | none => "bad-op"
+  | "xml" :: "tostring" :: rest =>
+    match runP pMsg rest with
+    | some m => encStr (Xml.toString m)
+    | none => "bad-op"
+  | "xml" :: "session" :: rest =>
+    match runP (do let T ← pThreshold; let ps ← pList pStr; pure (T, ps)) rest with
+    | some (T, ps) =>
+      let out := xmlBufSession T [] ps
+      if out.any (fun l => l.startsWith "uns") then "uns" else String.intercalate " | " out
     | none => "bad-op"
   | "codec" :: "eq" :: rest =>
     match runP (do let a ← pMsg; let b ← pMsg; pure (a, b)) rest with
